@@ -85,6 +85,8 @@ type trCtx struct {
 	noHoist int     // >0: inside the right operand of && / ||, where hoisting would change the evaluation order
 	loop   *trLoopCtx
 	pureDepth int // >0: translating a join as a pure term
+	extraParams []string // explicit iteration orders of the maps ranged over
+	norder    int
 	resultTypes []types.Type // result types of the function (of the returned function literal for a curried method)
 	nresults  int // number of results of the function (of the returned function literal for a curried method)
 }
@@ -209,6 +211,11 @@ func trLeanStr(s string) string {
 
 // exprAs: an expression in a position whose type is known (gives `nil` its type)
 func (c *trCtx) exprAs(e ast.Expr, ty types.Type) string {
+	if trIsError(ty) {
+		if r, ok := c.errorBox(e); ok {
+			return r
+		}
+	}
 	if c.isNil(e) {
 		switch {
 		case trIsError(ty):
@@ -221,6 +228,49 @@ func (c *trCtx) exprAs(e ast.Expr, ty types.Type) string {
 		trFail(e.Pos(), "nil of type %s is outside the subset", ty)
 	}
 	return c.expr(e)
+}
+
+// errorBox: a struct literal of a type that implements `error`, used as an error: only its message is kept — the constant
+// `Msg`/`Message` field, or the format of the fmt.Sprintf that builds it (the other fields name the directive or the source range)
+func (c *trCtx) errorBox(e ast.Expr) (string, bool) {
+	cl, ok := trUnparen(e).(*ast.CompositeLit)
+	if !ok {
+		return "", false
+	}
+	tv, ok := c.info().Types[cl]
+	if !ok || tv.Type == nil {
+		// a type of a package that is not loaded (syntax.Error): the literal still shows its message
+		if cl.Type == nil {
+			return "", false
+		}
+	} else if trIsError(tv.Type) {
+		return "", false
+	}
+	msg := ""
+	found := false
+	for _, el := range cl.Elts {
+		kv, ok := el.(*ast.KeyValueExpr)
+		if !ok {
+			continue
+		}
+		k, ok := kv.Key.(*ast.Ident)
+		if !ok || (k.Name != "Msg" && k.Name != "Message") {
+			continue
+		}
+		if v := c.info().Types[kv.Value]; v.Value != nil {
+			msg = strings.Trim(v.Value.ExactString(), "\"")
+			found = true
+		} else if call, ok := kv.Value.(*ast.CallExpr); ok && len(call.Args) > 0 {
+			if v := c.info().Types[call.Args[0]]; v.Value != nil {
+				msg = strings.Trim(v.Value.ExactString(), "\"")
+				found = true
+			}
+		}
+	}
+	if !found {
+		trFail(e.Pos(), "a struct literal used as an error without a constant Msg/Message is outside the subset")
+	}
+	return "(some (Error.mk " + trLeanStr(msg) + "))", true
 }
 
 // expr translates an expression to a single-line Lean term (atomic or parenthesised).
@@ -496,6 +546,9 @@ func (c *trCtx) composite(x *ast.CompositeLit) string {
 	}
 	switch u := under.(type) {
 	case *types.Struct:
+		if u.NumFields() == 0 {
+			return "()"
+		}
 		given := map[string]string{}
 		for i, el := range x.Elts {
 			if kv, ok := el.(*ast.KeyValueExpr); ok {
@@ -656,6 +709,9 @@ func (c *trCtx) call(x *ast.CallExpr) string {
 	}
 	if len(tf.mut) > 0 {
 		trFail(x.Pos(), "call of %s (assigns through a pointer or map parameter) inside an expression is outside the subset", full)
+	}
+	if tf.norder > 0 {
+		trFail(x.Pos(), "call of %s, which ranges over a map (its iteration order is an explicit parameter), is outside the subset", full)
 	}
 	c.fn.deps = append(c.fn.deps, tf)
 	name := c.t.qname(c.unit(), tf.unit, tf.leanName)
